@@ -130,6 +130,14 @@ class Gen:
             (x0, e0), (x1, e1) = self.node(depth + 1), self.node(depth + 1)
             self.desc.append(["struct", 9, 2])
             return KBox(x0, b=x1), KBox(e0, b=e1)
+        if kind == 7:
+            # set of hashable things: a delayed value and a plain leaf (arrays/bags are unhashable)
+            self.ncoll += 1
+            a, b = t.draw(50, "da"), t.draw(50, "db")
+            d = self.dask.delayed(operator.add)(self.dask.delayed(operator.mul)(a, 2), b)
+            self.desc.append(["struct", 7, 1])
+            self.desc.append(["delayed", a, b])
+            return {d, 5}, {a * 2 + b, 5}
         if kind in (4, 5) and n < 2:
             n = 2                        # two distinct field values (an iterator is single-use)
         items = [self.node(depth + 1) for _ in range(n)]
@@ -148,17 +156,7 @@ class Gen:
             return Box(xs[0], xs[-1]), Box(es[0], es[-1])
         if kind == 5:
             return Pair(xs[0], xs[-1]), Pair(es[0], es[-1])
-        if kind == 6:
-            return iter(xs), es          # iterators are consumed and returned as lists
-        # set of hashable things: delayed values and plain leaves
-        d, e = self.collection()
-        tries = 0
-        while not hasattr(d, "key") or type(d).__name__ != "Delayed":
-            d, e = self.collection()
-            tries += 1
-            if tries > 20:
-                return xs, es
-        return {d, 5}, {e, 5}
+        return iter(xs), es          # kind 6: iterators are consumed and returned as lists
 
 
 def same(np, a, b):
